@@ -53,6 +53,14 @@
 //! * m4 `A OR (A AND B)` → `A AND B` → VIOLATION after 1 312 cases;
 //! * m5 `x IN ()` → TRUE (and NOT IN → FALSE) → VIOLATION after 296 cases;
 //! * m7 `date_part('year', d) = y` preimage upper bound `y + 2` → VIOLATION after 2 518 cases;
+//! * seeded defect /verif/seeded/C04-a (`unwrap_certainly_null_expr` looks through TRY_CAST, so a CASE guarding a failing
+//!   TRY_CAST is reported non-nullable and `<case> IS NULL` folds to FALSE): first MISSED — the then signature
+//!   `unwrap-try-cast` excluded every case holding a fallible TRY_CAST and no template wrapped a fallible-to-NULL CASE
+//!   in a nullability-sensitive construct. After narrowing the signatures (a critical cast must be *exposed* to a
+//!   comparison-like node; known_excluded 22 % → 14 %) and adding the nullability templates (`egen::templates`:
+//!   IS [NOT] NULL / A = A / IS [NOT] DISTINCT FROM / A OR NOT A / A*0 around CASE over TRY_CAST, NULLIF, guarded
+//!   division with null-rejecting guards): `mutrun seeded/C04-a/patch.diff -- ./check C04 quick` → VIOLATION after
+//!   437 cases (`CASE WHEN c21 IS NOT NULL THEN TRY_CAST(c21 AS u64) ELSE lit END IS NULL`: TRUE vs FALSE).
 //! * m6 `try_cast_literal_to_type`: Int8 upper bound 128 instead of 127 → NOT detected at quick tier (exit 0):
 //!   weak spot — `CAST(i8_col AS wider) <op> 128` needs the literal 128 exactly; not re-probed for lack of time.
 use crate::ast::*;
